@@ -112,90 +112,7 @@ Proof. exact (@rforward_kept_prefix). Qed.
 Print Assumptions C06_kept_prefix_unchanged.
 
 Theorem C06_tie_residual_dataflow :
-  p_residual.p_residual =
-       ["rvq.loop:(quantizer_index, (vq, maybe_mlp)) in enumerate(zip(self.layers, maybe_code_transforms))";
-        "rvq.body:quantized, *rest = vq(residual, mask=mask, indices=layer_indices, sample_codebook_temp=sample_codebook_temp, freeze_codebook=freeze_codebook, codebook_transform_fn=maybe_mlp)";
-        "rvq.body:residual = residual - quantized.detach()";
-        "rvq.body:quantized_out = quantized_out + quantized";
-        "rvq.body:maybe_mlp = partial(maybe_mlp, condition=quantized_out)";
-        "rvq.init:x = self.project_in(x)"; "rvq.init:quantized_out = 0.0"; "rvq.init:residual = x";
-        "rvq.init:quantized_out = self.project_out(quantized_out)";
-        "rvq.stack:all_losses, all_indices = map(partial(torch.stack, dim=-1), (all_losses, all_indices))";
-        "rvq.stack:indices = torch.stack(indices)"; "rvq.decode:mask = indices == -1.0";
-        "rvq.decode:indices = indices.masked_fill(mask, 0)";
-        "rvq.decode:all_codes = all_codes.masked_fill(rearrange(mask, 'b n q -> q b n 1'), 0.0)";
-        "rvq.decode:indices = F.pad(indices, (0, self.num_quantizers - quantize_dim), value=-1)";
-        "rvq.decode:all_codes = get_at('q [c] d, b n q -> q b n d', self.codebooks, indices)";
-        "rvq.decode:all_codes = []"; "rvq.decode:quantized_out = 0.0";
-        "rvq.decode:all_codes = torch.stack(all_codes)"; "rvq.decode:quantized_out += layer_codes";
-        "rvq.decode:codes = maybe_transform_mlp(codes, condition=quantized_out)";
-        "rvq.decode:layer_codes = get_at('b n [c] d, b n -> b n d', codes, indices)";
-        "rvq.decode:layer_codes = get_at('[c] d, b n -> b n d', codes, indices)";
-        "rvq.output:self.project_out(codes_summed) ; codes = self.get_codes_from_indices(indices) ; codes_summed = reduce(codes, 'q ... -> ...', 'sum')";
-        "rfsq.loop:(quantizer_index, (layer, scale)) in enumerate(zip(self.layers, self.scales))";
-        "rfsq.body:quantized, indices = layer(residual / scale)"; "rfsq.body:quantized = quantized * scale";
-        "rfsq.body:residual = residual - quantized.detach()";
-        "rfsq.body:quantized_out = quantized_out + quantized"; "rfsq.init:x = self.project_in(x)";
-        "rfsq.init:quantized_out = 0.0"; "rfsq.init:residual = x";
-        "rfsq.init:quantized_out = self.project_out(quantized_out)";
-        "rfsq.stack:all_indices = torch.stack(all_indices, dim=-1)";
-        "rfsq.init:x = rearrange(x, 'b d ... -> b ... d')";
-        "rfsq.init:x = (x / clamp_value).tanh() * clamp_value";
-        "rfsq.init:quantized_out = rearrange(quantized_out, 'b ... d -> b d ...')";
-        "rfsq.decode:mask = indices == -1"; "rfsq.decode:indices = indices.masked_fill(mask, 0)";
-        "rfsq.decode:all_codes = get_at('q [c] d, b n q -> q b n d', self.codebooks, indices)";
-        "rfsq.decode:all_codes = all_codes.masked_fill(rearrange(mask, 'b n q -> q b n 1'), 0.0)";
-        "rfsq.decode:scales = rearrange(self.scales, 'q d -> q 1 1 d')";
-        "rfsq.decode:all_codes = all_codes * scales";
-        "rfsq.decode:indices = F.pad(indices, (0, self.num_quantizers - quantize_dim), value=-1)";
-        "rfsq.output:self.project_out(codes_summed) ; codes = self.get_codes_from_indices(indices) ; codes_summed = reduce(codes, 'q ... -> ...', 'sum')";
-        "rlfq.loop:(quantizer_index, layer) in enumerate(self.layers)";
-        "rlfq.body:quantized, indices, loss = layer(residual, mask=mask)";
-        "rlfq.body:residual = residual - quantized.detach()";
-        "rlfq.body:quantized_out = quantized_out + quantized"; "rlfq.init:x = self.project_in(x)";
-        "rlfq.init:quantized_out = 0.0"; "rlfq.init:residual = x";
-        "rlfq.init:quantized_out = self.project_out(quantized_out)";
-        "rlfq.stack:all_losses, all_indices = map(partial(torch.stack, dim=-1), (all_losses, all_indices))";
-        "rlfq.decode:mask = indices == -1.0"; "rlfq.decode:indices = indices.masked_fill(mask, 0)";
-        "rlfq.decode:all_codes = get_at('q [c] d, b n q -> q b n d', self.codebooks, indices)";
-        "rlfq.decode:all_codes = all_codes.masked_fill(rearrange(mask, 'b n q -> q b n 1'), 0.0)";
-        "rlfq.decode:indices = F.pad(indices, (0, self.num_quantizers - quantize_dim), value=-1)";
-        "rlfq.output:self.project_out(codes_summed) ; codes = self.get_codes_from_indices(indices) ; codes_summed = reduce(codes, 'q ... -> ...', 'sum')";
-        "rsvq.loop:(quantizer_index, sim_vq) in enumerate(self.layers)";
-        "rsvq.body:quantized, *rest = sim_vq(residual)";
-        "rsvq.body:residual = residual - quantized.detach()";
-        "rsvq.body:quantized_out = quantized_out + quantized"; "rsvq.init:quantized_out = 0.0";
-        "rsvq.init:residual = x";
-        "rsvq.stack:all_losses, all_indices = map(partial(torch.stack, dim=-1), (all_losses, all_indices))";
-        "rsvq.decode:mask = indices == -1.0"; "rsvq.decode:indices = indices.masked_fill(mask, 0)";
-        "rsvq.decode:all_codes = get_at('q [c] d, b n q -> q b n d', self.codebooks, indices)";
-        "rsvq.decode:all_codes = all_codes.masked_fill(rearrange(mask, 'b n q -> q b n 1'), 0.0)";
-        "rsvq.decode:all_codes = inverse(all_codes, 'q b * d')";
-        "rsvq.decode:indices = F.pad(indices, (0, self.num_quantizers - quantize_dim), value=-1)";
-        "rsvq.decode:all_codes = rearrange(all_codes, 'q b ... d -> q b d ...')";
-        "rsvq.output:summed_residual_codes ; all_codes = self.get_codes_from_indices(indices) ; summed_residual_codes = reduce(all_codes, 'q ... -> ...', 'sum')";
-        "rfsq.scales:scales.append((levels_tensor - 1) ** (-ind))"; "rlfq.scale:2 ** (-ind)";
-        "grvq.fwd:x = x.chunk(self.groups, dim=split_dim)";
-        "grvq.fwd:forward_kwargs = dict(return_all_codes=return_all_codes, sample_codebook_temp=sample_codebook_temp, mask=mask, freeze_codebook=freeze_codebook, rand_quantize_dropout_fixed_seed=get_maybe_sync_seed(device) if self.training else None)";
-        "grvq.fwd:out = tuple((rvq(chunk, indices=chunk_indices, **forward_kwargs) for rvq, chunk, chunk_indices in zip_longest(self.rvqs, x, indices)))";
-        "grvq.fwd:out = tuple(zip(*out))"; "grvq.fwd:quantized = torch.cat(quantized, dim=split_dim)";
-        "grvq.fwd:all_indices = torch.stack(all_indices)";
-        "grvq.split_dim:1 if self.accept_image_fmap else -1";
-        "grvq.decode:torch.cat(outputs, dim=self.split_dim)";
-        "grfsq.fwd:x = x.chunk(self.groups, dim=split_dim)";
-        "grfsq.fwd:forward_kwargs = dict(return_all_codes=return_all_codes, rand_quantize_dropout_fixed_seed=get_maybe_sync_seed(device) if self.training else None)";
-        "grfsq.fwd:out = tuple((rvq(chunk, **forward_kwargs) for rvq, chunk in zip(self.rvqs, x)))";
-        "grfsq.fwd:out = tuple(zip(*out))"; "grfsq.fwd:quantized = torch.cat(quantized, dim=split_dim)";
-        "grfsq.fwd:all_indices = torch.stack(all_indices)";
-        "grfsq.split_dim:1 if self.accept_image_fmap else -1";
-        "grfsq.decode:torch.cat(outputs, dim=self.split_dim)";
-        "grlfq.fwd:x = x.chunk(self.groups, dim=split_dim)";
-        "grlfq.fwd:forward_kwargs = dict(mask=mask, return_all_codes=return_all_codes, rand_quantize_dropout_fixed_seed=get_maybe_sync_seed(device) if self.training else None)";
-        "grlfq.fwd:out = tuple((rvq(chunk, **forward_kwargs) for rvq, chunk in zip(self.rvqs, x)))";
-        "grlfq.fwd:out = tuple(zip(*out))"; "grlfq.fwd:quantized = torch.cat(quantized, dim=split_dim)";
-        "grlfq.fwd:all_indices = torch.stack(all_indices)";
-        "grlfq.split_dim:1 if self.accept_image_fmap else -1";
-        "grlfq.decode:torch.cat(outputs, dim=self.split_dim)"].
+  p_residual.p_residual = pinned_p_residual.
 Proof. exact (@pin_p_residual). Qed.
 Print Assumptions C06_tie_residual_dataflow.
 
@@ -203,4 +120,3 @@ Theorem C06_tie_cdist :
   forall x2 y2 xy : R, k_cdist.k_cdist R_ops sqrt x2 y2 xy = sqrt (Rmax 0 (x2 + y2 - 2 * xy)).
 Proof. exact (@glue_cdist). Qed.
 Print Assumptions C06_tie_cdist.
-
